@@ -16,13 +16,25 @@ package harness
 //   3. random ValidateSignersWithoutParties;
 //   4. the real messages through the message router (MsgWriteScope new/existing, MsgDeleteScope,
 //      MsgAddScopeOwner, MsgDeleteScopeOwner, MsgWriteSession new/existing, MsgWriteRecord
-//      new/moving between sessions, MsgDeleteRecord) on state set up through the keeper.
+//      new/moving between sessions, MsgDeleteRecord, MsgAddScopeDataAccess, MsgDeleteScopeDataAccess,
+//      MsgUpdateValueOwners) on state set up through the keeper;
+//   5. overlap: record writes / session writes / deletions with a missing specification in a
+//      universe of 3 addresses x 2 roles, so that the same party sits in scope, session and previous
+//      session with DIFFERENT optional flags and roles, the lists concatenated by the keeper in an
+//      order in which an optional entry precedes the required one; the signer that is dropped is
+//      such a "hidden" required party half of the time;
+//   6. count-limited authorizations (authz.CountAuthorization): k identical messages in a row
+//      through the real keeper / the real message handler; compared with the counted transcription
+//      of findAuthzGrantee (Metadata/AuthzCount.v), NOT with the main model (which assumes generic
+//      authorizations);
+//   7. the concrete witnesses of the Coq observations run on the real code.
 //
 // Accounts: ids 1,2 have no account, 3 is a BaseAccount with sequence 7, 4 a BaseAccount with a
 // public key, 5 and 6 are BaseAccounts with sequence 0 and no public key — which is exactly what
 // keeper.isWasmAccount takes for a smart contract.  Grants are real x/authz generic authorizations.
 
 import (
+	"encoding/json"
 	"fmt"
 	"math/rand"
 	"sort"
@@ -59,7 +71,7 @@ var c10KindURL = map[int]string{
 	3: mdtypes.TypeURLMsgAddScopeDataAccessRequest, 4: mdtypes.TypeURLMsgDeleteScopeDataAccessRequest,
 	5: mdtypes.TypeURLMsgAddScopeOwnerRequest, 6: mdtypes.TypeURLMsgDeleteScopeOwnerRequest,
 	7: mdtypes.TypeURLMsgWriteSessionRequest, 8: mdtypes.TypeURLMsgWriteRecordRequest,
-	9: mdtypes.TypeURLMsgDeleteRecordRequest,
+	9: mdtypes.TypeURLMsgDeleteRecordRequest, 10: mdtypes.TypeURLMsgUpdateValueOwnersRequest,
 }
 
 type c10Env struct {
@@ -68,6 +80,17 @@ type c10Env struct {
 	addrs []sdk.AccAddress // index = id (0 unused)
 	w     *CaseWriter
 	r     *rand.Rand
+	// one representative description per kind of case, for the evidence file
+	samples map[string]any
+}
+
+func (e *c10Env) sample(key string, d any) {
+	if e.samples == nil {
+		e.samples = map[string]any{}
+	}
+	if _, ok := e.samples[key]; !ok {
+		e.samples[key] = d
+	}
 }
 
 const c10NAddr = 6
@@ -78,6 +101,7 @@ func c10Setup(t *testing.T, w *CaseWriter, r *rand.Rand) *c10Env {
 	for i := 1; i <= c10NAddr; i++ {
 		e.addrs[i] = addrN(1000 + i)
 	}
+	e.addrs = append(e.addrs, addrN(1000+c10NAddr+1)) // id 7: only ever a proposed value owner
 	// 3: ordinary account that has sent transactions
 	a3 := app.AccountKeeper.NewAccount(ctx, authtypes.NewBaseAccountWithAddress(e.addrs[3]))
 	if err := a3.SetSequence(7); err != nil {
@@ -156,6 +180,8 @@ func (e *c10Env) signerMsg(kind int, signers []int) mdtypes.MetadataMsg {
 		return &mdtypes.MsgWriteSessionRequest{Signers: s}
 	case 8:
 		return &mdtypes.MsgWriteRecordRequest{Signers: s}
+	case 10:
+		return &mdtypes.MsgUpdateValueOwnersRequest{Signers: s}
 	default:
 		return &mdtypes.MsgDeleteRecordRequest{Signers: s}
 	}
@@ -864,6 +890,62 @@ func (e *c10Env) outerCase(t *testing.T, which int) {
 		}
 		extra = c10Addrs(session)
 		build = func(s []int) c10VB { return &mdtypes.MsgWriteRecordRequest{Record: e.mkRecord(sess1), Signers: e.strs(s)} }
+	case 7: // MsgAddScopeDataAccess / MsgDeleteScopeDataAccess
+		sroles := e.rolesFrom(owners, 2)
+		withSpec := r.Intn(8) != 0
+		add := r.Intn(2) == 0
+		kind, name = 4, "DeleteScopeDataAccess"
+		if add {
+			kind, name = 3, "AddScopeDataAccess"
+		}
+		op = fmt.Sprintf("ODataAccess %s %s %s", coqBool(rollup), c10Parties(owners), c10OptInts(withSpec, sroles))
+		setup = func(ctx sdk.Context) {
+			setSpecs(ctx, sroles, nil, nil, withSpec, false)
+			if err := k.SetScope(ctx, mdtypes.Scope{ScopeId: scopeID, SpecificationId: sspecID, Owners: e.parties(owners),
+				DataAccess: e.strs([]int{2, 3}), RequirePartyRollup: rollup}); err != nil {
+				t.Fatalf("set scope: %v", err)
+			}
+		}
+		needed = e.neededAddrs(ifRollup(rollup, owners), owners, ifRollupI(rollup && withSpec, sroles))
+		extra = c10Addrs(owners)
+		build = func(s []int) c10VB {
+			if add {
+				return &mdtypes.MsgAddScopeDataAccessRequest{ScopeId: scopeID, DataAccess: e.strs([]int{4}), Signers: e.strs(s)}
+			}
+			return &mdtypes.MsgDeleteScopeDataAccessRequest{ScopeId: scopeID, DataAccess: e.strs([]int{3}), Signers: e.strs(s)}
+		}
+	case 8: // MsgUpdateValueOwners: 1-3 scopes, each with a value owner (rarely without)
+		n := 1 + r.Intn(3)
+		vos := make([]int, n) // 0 = the scope has no value owner
+		for i := 0; i < n; i++ {
+			vos[i] = e.pick([]int{3, 4, 3, 4, 3, 4, 1, 2})
+			if i > 0 && r.Intn(3) == 0 {
+				vos[i] = vos[0]
+			}
+			switch r.Intn(24) {
+			case 0:
+				vos[i] = 0
+			case 1, 2:
+				vos[i] = 5 + r.Intn(2) // a smart contract is the value owner
+			}
+		}
+		proposed := 7
+		switch r.Intn(12) {
+		case 0:
+			proposed = vos[r.Intn(n)] // already the value owner of one of them
+			if proposed == 0 {
+				proposed = 7
+			}
+		case 1, 2:
+			proposed = 1 + r.Intn(6)
+		}
+		for _, v := range vos {
+			if v != 0 {
+				needed = append(needed, v)
+			}
+		}
+		kind, name = 10, "UpdateValueOwners"
+		op, setup, build = e.uvoParts(t, vos, proposed)
 	default: // MsgDeleteRecord
 		rroles := e.rolesFrom(owners, 2)
 		withSpec := r.Intn(6) != 0
@@ -883,19 +965,38 @@ func (e *c10Env) outerCase(t *testing.T, which int) {
 			return &mdtypes.MsgDeleteRecordRequest{RecordId: mdtypes.RecordMetadataAddress(c10ScopeU, c10RecName), Signers: e.strs(s)}
 		}
 	}
-	if !rollup && (which == 1 || which == 2 || which == 3 || which == 6) && len(needed) == 0 {
+	if !rollup && (which == 1 || which == 2 || which == 3 || which == 6 || which == 7) && len(needed) == 0 {
 		needed = c10Addrs(owners)
 	}
 	signers, grants := e.signersFor(kind, dedupInts(needed), extra)
 	if len(signers) == 0 {
 		signers = []int{1 + r.Intn(4)}
 	}
+	e.emitOuter(t, kind, name, op, setup, build, signers, grants, "msg")
+}
+
+// emitOuter sets the state up on a branch holding the grants, sends the real message and emits the case.
+func (e *c10Env) emitOuter(t *testing.T, kind int, name, op string, setup func(sdk.Context), build func([]int) c10VB,
+	signers []int, grants []c10Grant, stream string) bool {
 	ctx := e.grantCtx(t, grants)
 	setup(ctx)
+	// what keeper.isWasmAccount answers on the state the message runs on: ids 5 and 6 by
+	// construction, and ids 1 and 2 (no account in the base state) as soon as the set-up has
+	// created their account by sending them a scope coin (value owners): sequence 0, no key.
+	wasm := []int{}
+	for id := 1; id <= c10NAddr; id++ {
+		if acc, isBase := e.app.AccountKeeper.GetAccount(ctx, e.addrs[id]).(*authtypes.BaseAccount); isBase && acc != nil &&
+			acc.GetSequence() == 0 && acc.GetPubKey() == nil {
+			wasm = append(wasm, id)
+		}
+	}
+	if len(wasm) != 2 {
+		e.w.Count(stream + "_fresh_account_counts_as_contract")
+	}
 	err := e.send(ctx, build(signers))
 	ok := err == nil
-	term := fmt.Sprintf("COuter %d %s %s (%s) %s %s", kind, c10Wasm, c10Grants(grants), op, c10Ints(signers), coqBool(ok))
-	d := c10Desc{"msg": name, "op": op, "grants": grants2desc(grants), "signers": signers, "accepted": ok}
+	term := fmt.Sprintf("COuter %d %s %s (%s) %s %s", kind, c10Ints(wasm), c10Grants(grants), op, c10Ints(signers), coqBool(ok))
+	d := c10Desc{"msg": name, "stream": stream, "op": op, "grants": grants2desc(grants), "signers": signers, "accepted": ok, "contracts": wasm}
 	if err != nil {
 		m := err.Error()
 		if len(m) > 200 {
@@ -904,20 +1005,501 @@ func (e *c10Env) outerCase(t *testing.T, which int) {
 		d["error"] = m
 	}
 	e.w.Add(term, d)
-	e.w.Count("msg_" + name)
+	e.sample(fmt.Sprintf("%s/%s/accepted=%v", stream, name, ok), d)
+	e.w.Count(stream + "_" + name)
 	if ok {
-		e.w.Count("msg_" + name + "_accepted")
-		e.w.Count("msg_accepted")
+		e.w.Count(stream + "_" + name + "_accepted")
+		e.w.Count(stream + "_accepted")
 	}
-	if which == 5 && strings.Contains(op, "(Some") {
-		e.w.Count("msg_WriteRecord_moving")
+	if strings.HasPrefix(op, "OWriteRecord") && strings.Contains(op, "(Some") {
+		e.w.Count(stream + "_WriteRecord_moving")
 		if ok {
-			e.w.Count("msg_WriteRecord_moving_accepted")
+			e.w.Count(stream + "_WriteRecord_moving_accepted")
 		}
 	}
-	e.w.Count("msg")
+	e.w.Count(stream)
+	e.w.Nontrivial(term)
+	return ok
+}
+
+// ---------- fixtures shared by the additional streams ----------
+
+func c10ScopeID() mdtypes.MetadataAddress { return mdtypes.ScopeMetadataAddress(c10ScopeU) }
+func c10SSpecID() mdtypes.MetadataAddress { return mdtypes.ScopeSpecMetadataAddress(c10SSpecU) }
+func c10CSpecID() mdtypes.MetadataAddress { return mdtypes.ContractSpecMetadataAddress(c10CSpecU) }
+func c10RSpecID() mdtypes.MetadataAddress {
+	return mdtypes.RecordSpecMetadataAddress(c10CSpecU, c10RecName)
+}
+func c10Sess1() mdtypes.MetadataAddress { return mdtypes.SessionMetadataAddress(c10ScopeU, c10SessU1) }
+func c10Sess2() mdtypes.MetadataAddress { return mdtypes.SessionMetadataAddress(c10ScopeU, c10SessU2) }
+
+func (e *c10Env) fxSpecs(ctx sdk.Context, sroles, croles, rroles []int, withS, withR bool) {
+	k := e.app.MetadataKeeper
+	specOwner := []string{e.addrs[1].String()}
+	if withS {
+		k.SetScopeSpecification(ctx, mdtypes.ScopeSpecification{SpecificationId: c10SSpecID(), OwnerAddresses: specOwner,
+			PartiesInvolved: e.roles(sroles), ContractSpecIds: []mdtypes.MetadataAddress{c10CSpecID()}})
+	}
+	k.SetContractSpecification(ctx, mdtypes.ContractSpecification{SpecificationId: c10CSpecID(), OwnerAddresses: specOwner,
+		PartiesInvolved: e.roles(croles), Source: mdtypes.NewContractSpecificationSourceHash("srchash"), ClassName: "cls"})
+	if withR {
+		k.SetRecordSpecification(ctx, mdtypes.RecordSpecification{SpecificationId: c10RSpecID(), Name: c10RecName,
+			Inputs:   []*mdtypes.InputSpecification{{Name: "in1", TypeName: "typ", Source: mdtypes.NewInputSpecificationSourceHash("inhash")}},
+			TypeName: "typ", ResultType: mdtypes.DefinitionType_DEFINITION_TYPE_RECORD, ResponsibleParties: e.roles(rroles)})
+	}
+}
+
+func (e *c10Env) fxScope(t *testing.T, ctx sdk.Context, owners []c10Party, rollup bool) {
+	if err := e.app.MetadataKeeper.SetScope(ctx, mdtypes.Scope{ScopeId: c10ScopeID(), SpecificationId: c10SSpecID(),
+		Owners: e.parties(owners), RequirePartyRollup: rollup}); err != nil {
+		t.Fatalf("set scope: %v", err)
+	}
+}
+
+func (e *c10Env) fxSession(ctx sdk.Context, id mdtypes.MetadataAddress, ps []c10Party, name string) {
+	e.app.MetadataKeeper.SetSession(ctx, mdtypes.Session{SessionId: id, SpecificationId: c10CSpecID(), Parties: e.parties(ps), Name: name})
+}
+
+func (e *c10Env) fxRecord(ctx sdk.Context, sess mdtypes.MetadataAddress) {
+	rec := e.mkRecord(sess)
+	rec.SpecificationId = c10RSpecID()
+	e.app.MetadataKeeper.SetRecord(ctx, rec)
+}
+
+// uvoParts: MsgUpdateValueOwners over len(vos) scopes whose value owners are vos (0 = none).
+func (e *c10Env) uvoParts(t *testing.T, vos []int, proposed int) (string, func(sdk.Context), func([]int) c10VB) {
+	k := e.app.MetadataKeeper
+	var ids []mdtypes.MetadataAddress
+	items := make([]string, len(vos))
+	for i, v := range vos {
+		ids = append(ids, mdtypes.ScopeMetadataAddress(uuid.MustParse(fmt.Sprintf("c1000000-0000-4000-8000-0000000001%02d", i))))
+		items[i] = coqOpt(v != 0, fmt.Sprint(v))
+	}
+	op := fmt.Sprintf("OUpdateValueOwners %s %d", coqList(items), proposed)
+	setup := func(ctx sdk.Context) {
+		e.fxSpecs(ctx, nil, nil, nil, true, false)
+		for i, id := range ids {
+			if err := k.SetScope(ctx, mdtypes.Scope{ScopeId: id, SpecificationId: c10SSpecID(), Owners: e.parties([]c10Party{{a: 1, role: c10Owner}})}); err != nil {
+				t.Fatalf("set scope: %v", err)
+			}
+			if vos[i] != 0 {
+				if err := k.SetScopeValueOwner(ctx, id, e.addrs[vos[i]].String()); err != nil {
+					t.Fatalf("set value owner: %v", err)
+				}
+			}
+		}
+	}
+	build := func(s []int) c10VB {
+		return &mdtypes.MsgUpdateValueOwnersRequest{ScopeIds: ids, ValueOwnerAddress: e.addrs[proposed].String(), Signers: e.strs(s)}
+	}
+	return op, setup, build
+}
+
+// ---------- overlap stream: the same party in several lists with different flags / roles ----------
+
+// c10Hidden: addresses that are required by a LATER entry of the concatenated list while an
+// EARLIER entry of the same address is optional (what a "de-duplicating" rewrite would lose).
+func c10Hidden(req []c10Party) []int {
+	firstOpt := map[int]bool{}
+	seen := map[int]bool{}
+	var out []int
+	done := map[int]bool{}
+	for _, p := range req {
+		if !seen[p.a] {
+			seen[p.a] = true
+			firstOpt[p.a] = p.opt
+			continue
+		}
+		if firstOpt[p.a] && !p.opt && !done[p.a] {
+			done[p.a] = true
+			out = append(out, p.a)
+		}
+	}
+	return out
+}
+
+func (e *c10Env) overlapParties(min, max int, allowOpt bool) []c10Party {
+	r := e.r
+	n := min + r.Intn(max-min+1)
+	var out []c10Party
+	for tries := 0; len(out) < n && tries < 40; tries++ {
+		p := c10Party{a: 1 + r.Intn(3), role: e.pick([]int{c10Owner, c10Servicer}), opt: allowOpt && r.Intn(2) == 0}
+		dup := false
+		for _, q := range out {
+			if q.a == p.a && q.role == p.role {
+				dup = true
+			}
+		}
+		if !dup {
+			out = append(out, p)
+		}
+	}
+	return out
+}
+
+// reflag: a sub-list of ps (address, role kept) with fresh random optional flags.
+func (e *c10Env) reflag(ps []c10Party, min int) []c10Party {
+	r := e.r
+	var out []c10Party
+	for _, p := range ps {
+		if r.Intn(3) != 0 {
+			out = append(out, c10Party{a: p.a, role: p.role, opt: r.Intn(2) == 0})
+		}
+	}
+	for len(out) < min {
+		p := ps[r.Intn(len(ps))]
+		out = uniqueParties(append(out, c10Party{a: p.a, role: p.role, opt: r.Intn(2) == 0}))
+	}
+	return out
+}
+
+func (e *c10Env) overlapCase(t *testing.T, i int) {
+	r := e.r
+	k := e.app.MetadataKeeper
+	owners := e.overlapParties(2, 4, true)
+	var op, name string
+	var kind int
+	var req, avail []c10Party
+	var roles []int
+	var setup func(sdk.Context)
+	var build func([]int) c10VB
+	switch i % 4 {
+	case 0, 1: // MsgWriteRecord, rollup on; i%4 == 1: moving from session 2 (arbitrary parties) to session 1
+		session := e.reflag(owners, 1)
+		if r.Intn(3) == 0 {
+			session = uniqueParties(append(session, e.overlapParties(1, 1, true)...))
+		}
+		moving := i%4 == 1
+		var old []c10Party
+		if moving {
+			old = e.overlapParties(1, 3, true)
+			if r.Intn(2) == 0 {
+				old = uniqueParties(append(e.reflag(session, 1), old...))
+			}
+		}
+		roles = e.rolesFrom(session, 2)
+		req = append(append(append([]c10Party{}, owners...), session...), old...)
+		avail = session
+		kind, name = 8, "WriteRecord"
+		op = fmt.Sprintf("OWriteRecord true %s %s %s %s", c10Parties(owners), c10Parties(session), c10OptParties(moving, old), c10Ints(roles))
+		setup = func(ctx sdk.Context) {
+			e.fxSpecs(ctx, nil, nil, roles, true, true)
+			e.fxScope(t, ctx, owners, true)
+			e.fxSession(ctx, c10Sess1(), session, "sess")
+			if moving {
+				e.fxSession(ctx, c10Sess2(), old, "old")
+				e.fxRecord(ctx, c10Sess2())
+			} else if r.Intn(2) == 0 {
+				e.fxRecord(ctx, c10Sess1())
+			}
+		}
+		build = func(s []int) c10VB { return &mdtypes.MsgWriteRecordRequest{Record: e.mkRecord(c10Sess1()), Signers: e.strs(s)} }
+	case 2: // MsgWriteSession on an existing session, rollup on: required = existing ++ owners
+		ex := e.reflag(owners, 1)
+		proposed := e.reflag(owners, 1)
+		roles = e.rolesFrom(ex, 2)
+		req = append(append([]c10Party{}, ex...), owners...)
+		avail = ex
+		kind, name = 7, "WriteSession"
+		op = fmt.Sprintf("OWriteSession true %s %s %s %s", c10Parties(owners), c10OptParties(true, ex), c10Parties(proposed), c10Ints(roles))
+		setup = func(ctx sdk.Context) {
+			e.fxSpecs(ctx, nil, roles, nil, true, false)
+			e.fxScope(t, ctx, owners, true)
+			e.fxSession(ctx, c10Sess1(), ex, "sess")
+		}
+		build = func(s []int) c10VB {
+			return &mdtypes.MsgWriteSessionRequest{Session: mdtypes.Session{SessionId: c10Sess1(), SpecificationId: c10CSpecID(), Parties: e.parties(proposed), Name: "sess"}, Signers: e.strs(s)}
+		}
+	default: // MsgDeleteRecord / MsgDeleteScope, rollup on, specification gone or present
+		withSpec := r.Intn(3) == 0
+		roles = e.rolesFrom(owners, 2)
+		req, avail = owners, owners
+		if !withSpec {
+			avail, roles = nil, nil
+		}
+		if r.Intn(2) == 0 {
+			kind, name = 9, "DeleteRecord"
+			op = fmt.Sprintf("ODeleteRecord true %s %s", c10Parties(owners), c10OptInts(withSpec, roles))
+			setup = func(ctx sdk.Context) {
+				e.fxSpecs(ctx, nil, nil, roles, true, withSpec)
+				e.fxScope(t, ctx, owners, true)
+				e.fxSession(ctx, c10Sess1(), owners, "sess")
+				e.fxRecord(ctx, c10Sess1())
+			}
+			build = func(s []int) c10VB {
+				return &mdtypes.MsgDeleteRecordRequest{RecordId: mdtypes.RecordMetadataAddress(c10ScopeU, c10RecName), Signers: e.strs(s)}
+			}
+		} else {
+			kind, name = 2, "DeleteScope"
+			op = fmt.Sprintf("ODeleteScope true %s %s", c10Parties(owners), c10OptInts(withSpec, roles))
+			setup = func(ctx sdk.Context) {
+				e.fxSpecs(ctx, roles, nil, nil, withSpec, false)
+				e.fxScope(t, ctx, owners, true)
+			}
+			build = func(s []int) c10VB { return &mdtypes.MsgDeleteScopeRequest{ScopeId: c10ScopeID(), Signers: e.strs(s)} }
+		}
+	}
+	_ = k
+	needed := dedupInts(e.neededAddrs(req, avail, roles))
+	hidden := c10Hidden(req)
+	if len(hidden) > 0 {
+		e.w.Count("overlap_with_hidden_required")
+	}
+	// drop one signer half of the time, preferably a hidden required party
+	drop := 0
+	if r.Intn(2) == 0 && len(needed) > 0 {
+		if len(hidden) > 0 && r.Intn(4) != 0 {
+			drop = hidden[r.Intn(len(hidden))]
+		} else {
+			drop = needed[r.Intn(len(needed))]
+		}
+	}
+	var signers []int
+	var grants []c10Grant
+	for _, a := range needed {
+		if a == drop {
+			if r.Intn(5) == 0 { // the dropped party has granted instead
+				g := 4
+				signers = append(signers, g)
+				grants = append(grants, c10Grant{a, g, kind})
+			}
+			continue
+		}
+		signers = append(signers, a)
+	}
+	signers = dedupInts(signers)
+	if len(signers) == 0 {
+		signers = []int{4}
+	}
+	if r.Intn(3) == 0 {
+		r.Shuffle(len(signers), func(i, j int) { signers[i], signers[j] = signers[j], signers[i] })
+	}
+	ok := e.emitOuter(t, kind, name, op, setup, build, signers, grants, "overlap")
+	if drop != 0 && containsInt(hidden, drop) {
+		e.w.Count("overlap_hidden_dropped")
+		if ok {
+			e.w.Count("overlap_hidden_dropped_accepted")
+		}
+	}
+}
+
+func containsInt(l []int, v int) bool {
+	for _, x := range l {
+		if x == v {
+			return true
+		}
+	}
+	return false
+}
+
+// ---------- count-limited authorizations ----------
+
+type c10CGrant struct{ granter, grantee, kind, uses int } // uses 0 = generic
+
+func (e *c10Env) countCase(t *testing.T, i int) {
+	r := e.r
+	kind := e.pick([]int{1, 2, 5, 8, 3, 3})
+	goodKinds := []int{kind}
+	switch kind {
+	case 3, 5:
+		goodKinds = append(goodKinds, 1)
+	case 8:
+		goodKinds = append(goodKinds, 7)
+	}
+	granter := 1 + r.Intn(4)
+	var signers []int
+	for _, a := range r.Perm(4) {
+		if a+1 != granter && len(signers) < 1+r.Intn(2) {
+			signers = append(signers, a+1)
+		}
+	}
+	if r.Intn(12) == 0 {
+		signers = append(signers, granter) // signs itself: nothing is consumed
+	}
+	keyed := map[[3]int]int{}
+	var order [][3]int
+	addG := func(g c10CGrant) {
+		k3 := [3]int{g.granter, g.grantee, g.kind}
+		if _, ok := keyed[k3]; !ok {
+			order = append(order, k3)
+		}
+		keyed[k3] = g.uses
+	}
+	total := 0
+	for _, s := range signers {
+		if s == granter {
+			continue
+		}
+		switch x := r.Intn(12); {
+		case x < 7: // count-limited, usable kind
+			u := 1 + r.Intn(3)
+			addG(c10CGrant{granter, s, e.pick(goodKinds), u})
+			total += u
+			if len(goodKinds) > 1 && r.Intn(3) == 0 { // and another one under the other usable kind
+				u2 := 1 + r.Intn(2)
+				k2 := goodKinds[0]
+				if keyed[[3]int{granter, s, k2}] != 0 {
+					k2 = goodKinds[1]
+				}
+				if _, ok := keyed[[3]int{granter, s, k2}]; !ok {
+					addG(c10CGrant{granter, s, k2, u2})
+					total += u2
+				}
+			}
+		case x < 8: // generic
+			addG(c10CGrant{granter, s, e.pick(goodKinds), 0})
+		case x < 9: // count-limited under an unrelated kind
+			addG(c10CGrant{granter, s, 9, 2})
+		case x < 10: // wrong direction
+			addG(c10CGrant{s, granter, kind, 2})
+		default: // nothing
+		}
+	}
+	k := total + 2
+	if k > 9 {
+		k = 9
+	}
+	var st []c10CGrant
+	for _, k3 := range order {
+		st = append(st, c10CGrant{k3[0], k3[1], k3[2], keyed[k3]})
+	}
+	ctx, _ := e.base.CacheContext()
+	for _, g := range st {
+		var a authz.Authorization = authz.NewGenericAuthorization(c10KindURL[g.kind])
+		if g.uses > 0 {
+			a = authz.NewCountAuthorization(c10KindURL[g.kind], int32(g.uses))
+		}
+		if err := e.app.AuthzKeeper.SaveGrant(ctx, e.addrs[g.grantee], e.addrs[g.granter], a, nil); err != nil {
+			t.Fatalf("save count grant: %v", err)
+		}
+	}
+	mode := "without"
+	switch {
+	case kind == 3 && i%2 == 0:
+		mode = "message"
+	case r.Intn(3) == 0:
+		mode = "with"
+	}
+	obs := make([]string, 0, k)
+	nAcc := 0
+	if mode == "message" {
+		e.fxSpecs(ctx, []int{c10Owner}, nil, nil, true, false)
+		e.fxScope(t, ctx, []c10Party{{a: granter, role: c10Owner}}, false)
+	}
+	for j := 0; j < k; j++ {
+		var err error
+		switch mode {
+		case "message":
+			cctx, write := ctx.CacheContext()
+			err = e.send(cctx, &mdtypes.MsgAddScopeDataAccessRequest{ScopeId: c10ScopeID(), DataAccess: []string{addrN(2000 + j).String()}, Signers: e.strs(signers)})
+			if err == nil {
+				write()
+			}
+		case "with":
+			c := mdtypes.AddAuthzCacheToContext(ctx)
+			ps := e.parties([]c10Party{{a: granter, role: c10Owner}})
+			err = try(func() error {
+				return e.app.MetadataKeeper.ValidateSignersWithParties(c, ps, ps, e.roles([]int{c10Owner}), e.signerMsg(kind, signers))
+			})
+		default:
+			c := mdtypes.AddAuthzCacheToContext(ctx)
+			err = try(func() error {
+				return e.app.MetadataKeeper.ValidateSignersWithoutParties(c, e.strs([]int{granter}), e.signerMsg(kind, signers))
+			})
+		}
+		obs = append(obs, coqBool(err == nil))
+		if err == nil {
+			nAcc++
+		}
+	}
+	items := make([]string, len(st))
+	descG := []string{}
+	for i, g := range st {
+		items[i] = fmt.Sprintf("(%d, %d, %d, %d)", g.granter, g.grantee, g.kind, g.uses)
+		u := fmt.Sprintf("count=%d", g.uses)
+		if g.uses == 0 {
+			u = "generic"
+		}
+		descG = append(descG, fmt.Sprintf("addr%d->addr%d:%s:%s", g.granter, g.grantee, strings.TrimPrefix(c10KindURL[g.kind], "/provenance.metadata.v1."), u))
+	}
+	term := fmt.Sprintf("CCount %d %s %d %s %s", kind, coqList(items), granter, c10Ints(signers), coqList(obs))
+	e.w.Add(term, c10Desc{"stream": "count", "mode": mode, "msg": c10KindURL[kind], "authorizations": descG, "required": granter,
+		"signers": signers, "accepted_sequence": obs,
+		"note": "count-limited authorizations are outside Metadata/Signers.v (it would answer the same for every repetition)"})
+	if nAcc > 0 && nAcc < k {
+		e.sample("count/"+mode, c10Desc{"stream": "count", "mode": mode, "msg": c10KindURL[kind], "authorizations": descG,
+			"required": granter, "signers": signers, "accepted_sequence": obs})
+	}
+	e.w.Count("count")
+	e.w.Count("count_mode_" + mode)
+	e.w.CountN("count_messages", int64(k))
+	e.w.CountN("count_messages_accepted", int64(nAcc))
+	if nAcc > 0 && nAcc < k {
+		e.w.Count("count_accepted_then_rejected") // the behaviour the generic-grant model cannot show
+	}
 	e.w.Nontrivial(term)
 }
+
+// ---------- the concrete witnesses of the Coq observations, on the real code ----------
+
+func (e *c10Env) witnessCases(t *testing.T) {
+	// C10_available_order_observable
+	p1, p2 := c10Party{1, c10Owner, true}, c10Party{2, c10Owner, true}
+	gs := []c10Grant{{1, 6, 1}, {2, 3, 1}}
+	g := e.grantCtx(t, gs)
+	if e.runWith(g, 1, gs, []c10Party{p1, p2}, []c10Party{p1, p2}, []int{c10Owner}, []int{6, 3}, "witness") {
+		e.w.Count("witness_avail_order_12_accepted")
+	}
+	if !e.runWith(g, 1, gs, []c10Party{p2, p1}, []c10Party{p2, p1}, []int{c10Owner}, []int{6, 3}, "witness") {
+		e.w.Count("witness_avail_order_21_rejected")
+	}
+	// C10_update_value_owners_no_position_rule: value owner signs, a smart contract follows
+	op, setup, build := e.uvoParts(t, []int{3}, 2)
+	if e.emitOuter(t, 10, "UpdateValueOwners", op, setup, build, []int{3, 6}, nil, "witness") {
+		e.w.Count("witness_uvo_contract_after_ordinary_signer_accepted")
+	}
+	// C10_update_value_owners_contract_literal_refuted: a contract that is not the value owner, alone, under the owner's grant
+	gs = []c10Grant{{3, 6, 10}}
+	if e.emitOuter(t, 10, "UpdateValueOwners", op, setup, build, []int{6}, gs, "witness") {
+		e.w.Count("witness_uvo_contract_not_owner_with_grant_accepted")
+	}
+	// ... and without the grant it is refused; with the owner listed after the contract it is refused as well (others are ignored)
+	if !e.emitOuter(t, 10, "UpdateValueOwners", op, setup, build, []int{6}, nil, "witness") {
+		e.w.Count("witness_uvo_contract_not_owner_no_grant_rejected")
+	}
+	if !e.emitOuter(t, 10, "UpdateValueOwners", op, setup, build, []int{6, 3}, nil, "witness") {
+		e.w.Count("witness_uvo_contract_first_silences_owner_rejected")
+	}
+	// C10_update_value_owners_first_signer_silences: value owner 2 has only ever received its scope
+	// coin, so isWasmAccount takes it for a smart contract; both value owners sign
+	op2, setup2, build2 := e.uvoParts(t, []int{2, 3}, 7)
+	if !e.emitOuter(t, 10, "UpdateValueOwners", op2, setup2, build2, []int{2, 3}, nil, "witness") {
+		e.w.Count("witness_uvo_fresh_owner_signs_first_rejected")
+	}
+	if e.emitOuter(t, 10, "UpdateValueOwners", op2, setup2, build2, []int{3, 2}, nil, "witness") {
+		e.w.Count("witness_uvo_fresh_owner_signs_second_accepted")
+	}
+	// C10_witness_endpoints: required in the session although optional in the scope
+	owners := []c10Party{{1, c10Controller, false}, {2, c10Servicer, true}}
+	session := []c10Party{{2, c10Servicer, false}, {1, c10Controller, true}}
+	old := []c10Party{{2, c10Servicer, true}}
+	rop := fmt.Sprintf("OWriteRecord true %s %s %s %s", c10Parties(owners), c10Parties(session), c10OptParties(true, old), c10Ints([]int{c10Servicer}))
+	rsetup := func(ctx sdk.Context) {
+		e.fxSpecs(ctx, nil, nil, []int{c10Servicer}, true, true)
+		e.fxScope(t, ctx, owners, true)
+		e.fxSession(ctx, c10Sess1(), session, "sess")
+		e.fxSession(ctx, c10Sess2(), old, "old")
+		e.fxRecord(ctx, c10Sess2())
+	}
+	rbuild := func(s []int) c10VB { return &mdtypes.MsgWriteRecordRequest{Record: e.mkRecord(c10Sess1()), Signers: e.strs(s)} }
+	if e.emitOuter(t, 8, "WriteRecord", rop, rsetup, rbuild, []int{1, 2}, nil, "witness") {
+		e.w.Count("witness_record_move_all_sign_accepted")
+	}
+	if !e.emitOuter(t, 8, "WriteRecord", rop, rsetup, rbuild, []int{1}, nil, "witness") {
+		e.w.Count("witness_record_move_hidden_required_missing_rejected")
+	}
+}
+
 
 func ifRollup(rollup bool, ps []c10Party) []c10Party {
 	if rollup {
@@ -971,9 +1553,29 @@ func TestC10(t *testing.T) {
 	e.exhaustive(t)
 	e.randomWith(t, scale(2500, 40000))
 	e.randomWithout(t, scale(800, 10000))
-	nOuter := scale(1400, 20000)
+	nOuter := scale(1800, 26000)
 	for i := 0; i < nOuter; i++ {
-		e.outerCase(t, i%7)
+		e.outerCase(t, i%9)
+	}
+	nOverlap := scale(800, 10000)
+	for i := 0; i < nOverlap; i++ {
+		e.overlapCase(t, i)
+	}
+	nCount := scale(150, 2000)
+	for i := 0; i < nCount; i++ {
+		e.countCase(t, i)
+	}
+	e.witnessCases(t)
+	for _, key := range []string{"count/without", "count/message", "overlap/WriteRecord/accepted=false", "overlap/WriteSession/accepted=true",
+		"msg/UpdateValueOwners/accepted=true", "msg/AddScopeDataAccess/accepted=true", "msg/DeleteScopeDataAccess/accepted=false",
+		"witness/UpdateValueOwners/accepted=false", "msg/WriteRecord/accepted=true"} {
+		if d, ok := e.samples[key]; ok {
+			b, err := json.Marshal(d)
+			if err != nil {
+				t.Fatal(err)
+			}
+			w.Samples = append(w.Samples, b)
+		}
 	}
 	w.Flush(t)
 }
